@@ -48,6 +48,14 @@ class _Return(Exception):
         self.v = v
 
 
+class _Break(Exception):
+    pass
+
+
+class _Continue(Exception):
+    pass
+
+
 BUILTIN_TYPES = {'list': list, 'dict': dict, 'tuple': tuple, 'str': str, 'int': int, 'set': set}
 
 
@@ -417,7 +425,28 @@ class Evaluator(object):
         elif isinstance(st, ast.For):
             for item in self.ev(st.iter, loc):
                 self.bind(st.target, item, scope)
-                self.exec_stmts(st.body, scope)
+                try:
+                    self.exec_stmts(st.body, scope)
+                except _Continue:
+                    continue
+                except _Break:
+                    break
+        elif isinstance(st, ast.While):
+            n_iter = 0
+            while self.ev(st.test, loc):
+                n_iter += 1
+                if n_iter > 100000:
+                    raise NotConst('while loop does not terminate within the evaluation bound')
+                try:
+                    self.exec_stmts(st.body, scope)
+                except _Continue:
+                    continue
+                except _Break:
+                    break
+        elif isinstance(st, ast.Break):
+            raise _Break()
+        elif isinstance(st, ast.Continue):
+            raise _Continue()
         elif isinstance(st, ast.If):
             if self.ev(st.test, loc):
                 self.exec_stmts(st.body, scope)
